@@ -59,6 +59,20 @@ def build(rng, case):
         scale = float([1e6, 1e160, 1e250, 1e-160, 1e-300, 3e154][case["s"] // 6 % 6])
         case["_extreme_magnitude"] = True
     coords = [[fmt(v, rng) for v in rng.uniform(-1, 1, 3) * scale] for _ in range(n)]
+    if case["s"] % 4 == 3:
+        # planar / axial molecules and an atom at the origin: coordinates that are exactly zero, in the spellings writers use.
+        # A stated zero is a stated value like any other.
+        zeros = ["0", "0.0", "0.00000", "-0.0", "0.000000e+00", "-0.00000"]
+        axis = int(rng.integers(3))
+        for i in range(n):
+            r = int(rng.integers(4))
+            if r == 0:
+                coords[i][axis] = zeros[int(rng.integers(len(zeros)))]
+            elif r == 1:
+                coords[i] = [zeros[int(rng.integers(len(zeros)))] for _ in range(3)]
+            elif r == 2:
+                coords[i][int(rng.integers(3))] = zeros[int(rng.integers(len(zeros)))]
+        case["_zero_coordinates"] = True
     if case["ids"] == "one_character":
         # ids of a single character (1..9, a, b, ... as small hand-written files have them), next to two-letter element symbols
         pool = list("123456789abcdefghijklmnopqrstuvwxyzABCDEFGHIJKLMNOPQRSTUVWXYZ")
@@ -118,6 +132,15 @@ def build(rng, case):
             extra = ' formalCharge="%d"' % rng.integers(-2, 3)
         if rng.integers(6) == 0:
             extra += ' isotope="13"'
+        if case["s"] % 5 in (1, 3):
+            # writers that keep the 2D depiction beside the 3D geometry (Open Babel, Marvin, BKChem): x2/y2 (and sometimes the
+            # fractional xFract..) stand next to x3/y3/z3 on the same atom entry and have other values; the property names x3/y3/z3
+            extra += ' x2="%s" y2="%s"' % (fmt(rng.uniform(-9, 9), rng), fmt(rng.uniform(-9, 9), rng))
+            if case["s"] % 10 == 3:
+                extra += ' xFract="%.4f" yFract="%.4f" zFract="%.4f"' % tuple(rng.uniform(0, 1, 3))
+            if rng.integers(3) == 0:
+                extra += ' hydrogenCount="%d" spinMultiplicity="1"' % rng.integers(0, 4)
+            case["_depiction_coordinates"] = True
         attrs = ['id="%s"' % ids[i], 'elementType="%s"' % els[i]] + extra.split() + ['x3="%s"' % coords[i][0], 'y3="%s"' % coords[i][1], 'z3="%s"' % coords[i][2]]
         if case["s"] % 3 == 1:
             # the attributes of an element carry no order: written as another serializer (or a hand edit) may leave them
@@ -334,6 +357,12 @@ def run_case(case, ctx):
     st.seen("document_wrapper", case.get("_wrap"))
     if case.get("_attribute_order"):
         st.count("documents_with_atom_attributes_in_another_order")
+    if case.get("_zero_coordinates"):
+        st.count("documents_with_coordinates_that_are_exactly_zero")
+    if case.get("_depiction_coordinates"):
+        st.count("documents_with_x2_y2_beside_x3_y3_z3")
+    if case.get("_zero_coordinates") and case.get("_depiction_coordinates"):
+        st.count("documents_with_zero_x3_and_an_x2_beside_it")
     if case.get("_repeated_bond_entries"):
         st.count("documents_with_a_bond_entry_listed_twice")
     if case.get("_extreme_magnitude"):
@@ -368,6 +397,12 @@ def requirements(stats, tier):
         need.append("documents with the bond array ahead of the atom array: %d" % stats.get("documents_with_the_bond_array_ahead_of_the_atom_array"))
     if stats.get("documents_with_atom_attributes_in_another_order") < (50 if tier == "quick" else 5000):
         need.append("documents whose atom attributes are written in another order: %d" % stats.get("documents_with_atom_attributes_in_another_order"))
+    if stats.get("documents_with_coordinates_that_are_exactly_zero") < (30 if tier == "quick" else 5000):
+        need.append("documents with coordinates that are exactly zero: %d" % stats.get("documents_with_coordinates_that_are_exactly_zero"))
+    if stats.get("documents_with_x2_y2_beside_x3_y3_z3") < (50 if tier == "quick" else 5000):
+        need.append("documents with x2/y2 beside x3/y3/z3: %d" % stats.get("documents_with_x2_y2_beside_x3_y3_z3"))
+    if stats.get("documents_with_zero_x3_and_an_x2_beside_it") < (10 if tier == "quick" else 1000):
+        need.append("documents with a zero x3 and an x2 beside it: %d" % stats.get("documents_with_zero_x3_and_an_x2_beside_it"))
     if stats.nseen("document_wrapper_with_bonds") < 5:
         need.append("document wrappers observed with bonds: %s" % sorted(stats.sets.get("document_wrapper_with_bonds", [])))
     if stats.get("documents_with_two_atom_arrays_and_bonds") < 10:
